@@ -85,6 +85,9 @@ package hamt
 //@ func hamt.maxPadLength
 //@ requires wfData(nd)
 //@ ensures 0 <= result
+// the prefix of a link name is the bucket index in upper-case hex, as wide as the largest index
+// (fanout - 1) is in its shortest form: one digit up to fanout 16, two up to 256, three up to 1024
+//@ ensures the-pad-length-is-the-minimal-hex-width-of-the-largest-bucket-index: nd.Fanout.m == 2 && 1 <= nd.Fanout.v.x && nd.Fanout.v.x <= 1024 ==> 1 <= result && (nd.Fanout.v.x - 1) < (1 << (4 * result)) && (result == 1 || (1 << (4 * (result - 1))) <= nd.Fanout.v.x - 1)
 //@ pure
 //@ alias padLen int
 
